@@ -16,17 +16,32 @@ ASSUMES = ["dem, gop, other votes of every version are reals >= 0 (turnout = the
            "asserted for percentages >= 1 (see DESIGN.md, C17)"]
 OUTSIDE = ["more versions than V or a latest percentage above P (the percent grid is materialised, so its length is concrete per path)",
            "NaN inputs (the function replaces them by 0 before anything else)"]
-BOUNDS = {"quick": "one unit; V = 2 versions with P = 3 and V = 3 with P = 2; every order / tie / zero pattern of the symbolic votes",
-          "thorough": "V = 3 with P = 4; V = 4 with P = 2; two units in one call"}
+BOUNDS = {"quick": "one unit; V = 1 and V = 2 versions with latest percent <= 3; V = 3 with latest percent < 1 or non-monotone turnout; "
+                   "every order / tie / zero pattern of the symbolic votes",
+          "thorough": "adds V = 3 with latest percent <= 2 (all), V = 2 with latest percent <= 5, two units in one call"}
 OPTS = {"quick": dict(case_timeout_s=900, solver_timeout_ms=30000, max_paths=200000),
         "thorough": dict(case_timeout_s=3300, solver_timeout_ms=60000, max_paths=2000000)}
 
 
 def cases(tier):
-    out = [dict(name="V2_P3", V=2, P=3, weight=5), dict(name="V3_P2", V=3, P=2, weight=20), dict(name="V1_P3", V=1, P=3, weight=1)]
+    out = [dict(name="V1_P3", V=1, P=3, weight=1)]
+
+    def split(name, V, P, weight, **kw):
+        # the input space is partitioned (latest recorded percent in [k, k+1), turnout monotone or not) so that the
+        # parts explore in parallel; together the parts cover the whole space
+        for k in range(P + 1):
+            for mono in (True, False):
+                out.append(dict(name="%s_top%d_%s" % (name, k, "mono" if mono else "nonmono"), V=V, P=P, top=k, mono=mono,
+                                weight=weight if mono else 1, **kw))
+
+    split("V2_P3", 2, 3, 5)
+    split("V3_P2", 3, 2, 20)
+    if tier == "quick":
+        # the two heaviest parts of V3_P2 (latest percent >= 1 with monotone turnout: 6-16 min of nlsat) are thorough-only
+        out = [c for c in out if not (c["V"] == 3 and c.get("mono") and c.get("top", 0) >= 1)]
     if tier == "thorough":
-        out += [dict(name="V3_P4", V=3, P=4, weight=50), dict(name="V4_P2", V=4, P=2, weight=60),
-                dict(name="V2_P3_two_units", V=2, P=3, units=2, weight=40)]
+        split("V2_P5", 2, 5, 50)
+        split("V2_P3_two_units", 2, 3, 40, units=2)
     return out
 
 
@@ -47,6 +62,14 @@ def run(ctx, case):
         w = [d + g for d, g in zip(dem, gop)]
         nm = [safe_div(d - g, ww) for d, g, ww in zip(dem, gop, w)]
         hist[f] = dict(dem=dem, gop=gop, turnout=turnout, w=w, pev=pev, nm=nm)
+        if u == 0 and "top" in case:
+            k = case["top"]
+            ctx.assume(sym.AND(pev[-1] >= k, pev[-1] < k + 1) if k < P else (pev[-1] >= k))
+            mono_c = sym.AND(*[turnout[i + 1] >= turnout[i] for i in range(V - 1)]) if V > 1 else True
+            if V > 1:
+                ctx.assume(mono_c if case["mono"] else sym.NOT(mono_c))
+            elif not case["mono"]:
+                raise sym.Abort("single version is always monotone")
         frames.append(pd.DataFrame({"geographic_unit_fips": [f] * V, "results_dem": obj(dem), "results_gop": obj(gop),
                                     "results_turnout": obj(turnout), "results_weights": obj(w), "percent_expected_vote": obj(pev),
                                     "results_normalized_margin": obj(nm), "last_modified": list(range(V))}))
